@@ -254,11 +254,15 @@ fn one(ctx: &mut Ctx, tape: &[u32]) -> Result<(), Fail> {
 
 /// libFuzzer entry: Some(message) on a violation
 pub fn fuzz_one(tape: &[u32]) -> Option<String> {
+    fuzz_case(tape).map(|(m, _)| m)
+}
+
+pub fn fuzz_case(tape: &[u32]) -> Option<(String, Value)> {
     let case = gen_case(&mut Tape::new(tape), true);
     match check(case.mode, &case.macro_name, &case.attr, &case.item) {
         Ok(_) => None,
         Err(e) if e.starts_with("HARNESS") => None,
-        Err(e) => Some(format!("{e}\nattr: {}\nitem: {}", case.attr, case.item)),
+        Err(e) => Some((e, case.json())),
     }
 }
 
@@ -269,7 +273,16 @@ pub fn run(ctx: &mut Ctx) {
         .into();
     ctx.assumptions.push("E1 runs the working-tree macro source in-process through proc_macro2's fallback; the E2 recorder cross-check (C20/C02 E2 leg) ties it to real rustc expansions".into());
     let cases = ctx.n(200_000, 4_000_000);
-    run_tapes_par(ctx, 2, cases, 400, one);
+    if !run_tapes_par(ctx, 2, cases, 400, one) {
+        return;
+    }
+    crate::fuzzrun::replay_corpus(ctx, "c02_append_only", fuzz_case);
+    if !ctx.violations.is_empty() {
+        return;
+    }
+    if !ctx.quick() {
+        crate::fuzzrun::campaign(ctx, "c02_append_only", fuzz_case, 300_000);
+    }
 }
 
 pub fn replay(ctx: &mut Ctx, v: &Value) {
